@@ -19,10 +19,10 @@ LEVEL = "exploration"
 RULE = (
     "Histories over the operations {open(use_cache, create_cache, rpc in {1, N, N+1, default}, "
     "options dict plain / with nested storage_options / absent), cli-create(adjacent | user dir, "
-    "rpc), open with create_cache=True while the user cache dir cannot be created (allowed to fail with OSError, not to write elsewhere), open of the same product on memory:// or vtrace:// (uncached, with / without storage_options), delete local cache, delete adjacent cache, tear (truncate) the index files of one location, reload an earlier returned tree}. Quick: a "
+    "rpc), open with create_cache=True while the user cache dir cannot be created (allowed to fail with OSError, not to write elsewhere), open of the same product on memory:// or vtrace:// (uncached, or with index files shipped next to its images; with / without storage_options), delete local cache, delete adjacent cache, tear (truncate) the index files of one location, reload an earlier returned tree}. Quick: a "
     "Hypothesis RuleBasedStateMachine (120 machines x <= 12 steps) plus all histories of length "
-    "<= 2 over a 15-operation alphabet and all 96 'produce a cache, disturb it, open' triples; thorough: breadth-first enumeration of ALL histories up "
-    "to length 4 over that alphabet (54240 per product) for a level-1.1 ScanSAR-like product (image files differ only in the scan suffix) and a level-1.5 product. "
+    "<= 2 over a 16-operation alphabet and all 96 'produce a cache, disturb it, open' triples; thorough: breadth-first enumeration of ALL histories up "
+    "to length 4 over that alphabet (69904 per product) for a level-1.1 ScanSAR-like product (image files differ only in the scan suffix) and a level-1.5 product. "
     "Invariants after every step: the returned tree equals the uncached reference for this "
     "step's rpc; the product directory (listing + sha256) is unchanged except index files made "
     "by cli-create; the user cache dir contains exactly the index files the model predicts "
@@ -256,9 +256,15 @@ class World:
             # the caller's dicts untouched and nothing may be remembered for later (local) opens
             if op["fs"] not in self.remote:
                 self.remote[op["fs"]] = harness.Materialised(self.files, op["fs"]).__enter__()
+            with_index = bool(op.get("with_index"))
+            if with_index:
+                # index files shipped next to the images of the remote product (made elsewhere)
+                docs = reference(self.level, "default")[1]
+                for image in self.images:
+                    c07.put_adjacent(self.remote[op["fs"]], image, json.dumps(docs[image]))
             opts = None
             if op.get("opts") != "absent":
-                opts = {"use_cache": False}
+                opts = {"use_cache": with_index}
                 if op.get("opts") == "storage_options":
                     opts["storage_options"] = {"skip_instance_cache": False}
             before = copy.deepcopy(opts)
@@ -269,9 +275,14 @@ class World:
                 tree, err = harness.guard(ceos_alos2.open_alos2, self.remote[op["fs"]].url, backend_options=opts)
             if opts != before:
                 out.append(harness.disc("options-mutated", what, before, opts))
+            if with_index:
+                for image in self.images:
+                    c07.remove_adjacent(self.remote[op["fs"]], image)
             if err is not None:
                 out.append(harness.disc("exception", what, "a tree", harness.exc_text(err)))
-            else:
+            elif not with_index:
+                # (through a shipped index the pixels of a non-local product cannot be loaded:
+                # open finding D5 - the state checks below still apply)
                 ref, _ = reference(self.level, "default")
                 flat, ferr = harness.guard(harness.flatten, tree)
                 if ferr is not None:
@@ -398,6 +409,7 @@ ALPHABET = [
     {"op": "tear", "where": "adjacent"},
     {"op": "open_remote", "fs": "memory", "opts": "storage_options"},
     {"op": "open_blocked", "use_cache": False},
+    {"op": "open_remote", "fs": "memory", "opts": "absent", "with_index": True},
 ]
 
 
@@ -431,7 +443,8 @@ op_strategy = st.one_of(
     st.just({"op": "delete_adjacent"}),
     st.fixed_dictionaries({"op": st.just("tear"), "where": st.sampled_from(["user", "adjacent"])}),
     st.fixed_dictionaries({"op": st.just("open_blocked"), "use_cache": st.booleans()}),
-    st.fixed_dictionaries({"op": st.just("open_remote"), "fs": st.sampled_from(["memory", "vtrace"]), "opts": st.sampled_from(["plain", "storage_options", "absent"])}),
+    st.fixed_dictionaries({"op": st.just("open_remote"), "fs": st.sampled_from(["memory", "vtrace"]), "opts": st.sampled_from(["plain", "storage_options", "absent"]),
+                           "with_index": st.booleans()}),
     st.fixed_dictionaries({"op": st.just("reload_old"), "index": st.integers(0, 5)}),
 )
 
@@ -494,7 +507,7 @@ def classify(case):
 
 LEVEL_TEXT = (
     "Model-based stateful testing of open histories: a Hypothesis rule-based state machine and a "
-    "breadth-first enumeration of all bounded histories over a 15-operation alphabet; after every "
+    "breadth-first enumeration of all bounded histories over a 16-operation alphabet; after every "
     "step the returned tree, the product directory, the user cache directory, the caller's option "
     "dicts, the library's default dicts and all earlier trees are checked against a model of the "
     "cache state. Exhaustive up to history length 4 (thorough) / 2 (quick) for two products."
